@@ -51,7 +51,9 @@ type BarSpec struct {
 	ExtErrAt  int
 	ExtNoNL   bool // the extender's last line is not newline-terminated
 	FillErrAt int
-	Pre, App  []DecorSpec
+	// NilBuilder: the bar is created with Progress.New(total, nil, options...): no filler of its own
+	NilBuilder bool
+	Pre, App   []DecorSpec
 }
 
 type Op struct {
@@ -99,15 +101,17 @@ type Spec struct {
 	ReuseDecorSlice bool
 	// SharedExtender: one BarExtender option value, created once, is passed to every bar that has extender rows
 	SharedExtender bool
-	Bars           []BarSpec
-	Main           []Op
-	Clients        [][]Op
-	Main2          []Op // by main after the clients were started
-	Late           []Op // by main after Wait returned
-	NoWait         bool
-	Pty            bool // output is the slave end of a pseudo terminal of TermW x TermH
-	TermW          int
-	TermH          int
+	// DebugNil: WithDebugOutput(nil) is passed (documented as "discard")
+	DebugNil bool
+	Bars     []BarSpec
+	Main     []Op
+	Clients  [][]Op
+	Main2    []Op // by main after the clients were started
+	Late     []Op // by main after Wait returned
+	NoWait   bool
+	Pty      bool // output is the slave end of a pseudo terminal of TermW x TermH
+	TermW    int
+	TermH    int
 }
 
 func (sp *Spec) String() string {
@@ -134,6 +138,9 @@ func (sp *Spec) String() string {
 	if sp.UWG {
 		b.WriteString(" user-waitgroup")
 	}
+	if sp.DebugNil {
+		b.WriteString(" debug-output=nil")
+	}
 	if sp.ReuseDecorSlice {
 		b.WriteString(" reused-decorator-slice")
 	}
@@ -153,6 +160,9 @@ func (sp *Spec) String() string {
 		}
 		if bs.After > 0 {
 			fmt.Fprintf(&b, ",after=b%d", bs.After-1)
+		}
+		if bs.NilBuilder {
+			b.WriteString(",nil-builder")
 		}
 		if bs.ExtRows > 0 {
 			fmt.Fprintf(&b, ",ext=%d/%v", bs.ExtRows, bs.ExtRev)
@@ -595,6 +605,11 @@ func (r *runner) do(client int, op Op) {
 		switch op.K {
 		case "add":
 			filler, opts := r.barOptions(op.B)
+			if r.sp.Bars[op.B].NilBuilder {
+				// New panics where Add returns an error: only used by programs that add before any shutdown
+				r.bars[op.B] = r.p.New(r.sp.Bars[op.B].Total, nil, opts...)
+				return "ok"
+			}
 			b, err := r.p.Add(r.sp.Bars[op.B].Total, filler, opts...)
 			if err != nil {
 				if err == mpb.ErrDone {
@@ -725,6 +740,9 @@ func (sp *Spec) Run(x *X) {
 	ctx, cancel := context.WithCancel(context.Background())
 	r.cancel = cancel
 	opts := []mpb.ContainerOption{mpb.WithOutput(Recorder{x}), mpb.WithDebugOutput(debugW{x})}
+	if sp.DebugNil {
+		opts[1] = mpb.WithDebugOutput(nil)
+	}
 	var pty *Pty
 	if sp.Pty {
 		var err error
